@@ -7,7 +7,7 @@
    the bytes only through the [ty] the front end elaborates; the wire-level theorems below say
    which changes of [ty] are invisible, for EVERY type, value, nesting depth and sequence. *)
 From Coq Require Import ZArith List Bool String Ascii Permutation.
-From BP Require Import Bits Schema Spec WireEq FrontBase Front FrontRewrite.
+From BP Require Import Bits Schema Spec WireEq FrontBase Front FrontValid FrontRewrite FrontCongr FrontSim FrontRenumber.
 Import ListNotations.
 Open Scope Z_scope.
 
@@ -139,9 +139,92 @@ Example C12_rename_example :
   Some (TMsg true [(2, TArr true 2 (TEnum 3 [0; 5])); (1, TAlias (TInt 13))]).
 Proof. split; vm_compute; reflexivity. Qed.
 
-(* PARTIAL (front-end side): for reorder_fields, reorder_defs, alias intro/inline, nest/un-nest,
-   move to import, constant expressions and renumbering the statement
+(* REPLACING A LITERAL BY A CONSTANT EXPRESSION OF EQUAL VALUE (and any expression by another of
+   equal value), in any number of constant statements of any file at any depth: [check] is
+   UNCHANGED — same acceptance, same errors, same elaborated types, hence the same bytes *)
+Theorem C12_const_expr : forall fs fs' root trad,
+  frel const_expr_step fs fs' -> check fs' root trad = check fs root trad.
+Proof. exact const_expr_check. Qed.
+Print Assumptions C12_const_expr.
+
+Definition ex_ce (e : cexpr) : files :=
+  [("r"%string, [IProto 1 "r"; IConst 2 "N" (CExpr e);
+                 IMsg 3 "M" false [IField 4 (XArr SByte (CapRef ["N"]) false) "d" 1; IField 5 (XSingle (SUint 7)) "t" 2]]%string)].
+
+Example C12_const_expr_example :
+  frel const_expr_step (ex_ce (EInt 7)) (ex_ce (EDiv (EMul (EInt 2) (EInt 7)) (EInt 2))) /\
+  msg_ty_at (check (ex_ce (EDiv (EMul (EInt 2) (EInt 7)) (EInt 2))) "r" false) ["M"%string] =
+  Some (TMsg false [(1, TArr false 7 TByte); (2, TUint 7)]).
+Proof.
+  split; [|vm_compute; reflexivity].
+  cbn [ex_ce frel lrel fst snd]. split; [reflexivity|]. split; [|exact I].
+  split; [now left|]. split; [|split; [now left|exact I]].
+  right. left. exists 2, "N"%string, (EInt 7), (EDiv (EMul (EInt 2) (EInt 7)) (EInt 2)), 7. now repeat split.
+Qed.
+
+(* RENUMBERING FIELDS ORDER-PRESERVINGLY, front end + wire: g0 is an injective map on numbers that
+   stays within 1..255; [renumbered g0 fs fs'] says that fs' is fs with the fields of some
+   messages (any file, any nesting depth) renumbered by g0, g0 being monotone on the numbers of
+   each such message.  Then the rewritten schema is accepted and every message elaborates to a
+   type of the same size and the same wire format, the value mapped through the rewrite *)
+Theorem C12_renumber : forall g0,
+  (forall a b, g0 a = g0 b -> a = b) -> (forall k, number_ok k -> number_ok (g0 k)) ->
+  forall fs fs' root trad e,
+  renumbered g0 fs fs' -> check fs root trad = Ok e ->
+  exists e', check fs' root trad = Ok e' /\
+    forall p t, msg_ty_at (Ok e) p = Some t ->
+      exists t' m, msg_ty_at (Ok e') p = Some t' /\ nbits t = nbits t' /\ forall v, wire t v = wire t' (m v).
+Proof. exact renumber_check. Qed.
+Print Assumptions C12_renumber.
+
+(* non-vacuity: Inner's fields 1,2 become 2,5 (the cycle 1->2->5->1); Outer embeds Inner twice *)
+Definition ex_g (k : Z) : Z := if k =? 1 then 2 else if k =? 2 then 5 else if k =? 5 then 1 else k.
+Definition ex_rn (a b : Z) : files :=
+  [("r"%string,
+    [IProto 1 "r";
+     IMsg 2 "Outer" true
+       [IMsg 3 "Inner" true [IField 4 (XSingle (SInt 13)) "x" a; IField 5 (XSingle (SUint 3)) "y" b];
+        IField 6 (XArr (SRef ["Inner"]) (CapLit 2) true) "arr" 3;
+        IField 7 (XSingle (SRef ["Inner"])) "one" 1]]%string)].
+
+Example C12_renumber_example :
+  (forall a b, ex_g a = ex_g b -> a = b) /\ (forall k, number_ok k -> number_ok (ex_g k)) /\
+  renumbered ex_g (ex_rn 1 2) (ex_rn 2 5) /\
+  msg_ty_at (check (ex_rn 2 5) "r" false) ["Outer"%string] =
+  Some (TMsg true [(3, TArr true 2 (TMsg true [(2, TInt 13); (5, TUint 3)])); (1, TMsg true [(2, TInt 13); (5, TUint 3)])]).
+Proof.
+  split; [|split; [|split; [|vm_compute; reflexivity]]].
+  - intros a b. unfold ex_g.
+    repeat match goal with |- context [?x =? ?y] => destruct (Z.eqb_spec x y) end; intros; subst; try reflexivity; try congruence.
+  - intros k. unfold ex_g, number_ok.
+    repeat match goal with |- context [?x =? ?y] => destruct (Z.eqb_spec x y) end; intros; subst; repeat split; try (apply Z.leb_le; reflexivity); tauto.
+  - unfold renumbered. cbn [ex_rn frelT FrontSim.lrel fst snd]. split; [reflexivity|]. split; [|exact I].
+    split; [now left|]. split; [|exact I].
+    right. split; [reflexivity|]. split; [reflexivity|]. split; [reflexivity|].
+    exists idz. split; [now left|].
+    split; [|split; [now left|split; [now left|exact I]]].
+    right. split; [reflexivity|]. split; [reflexivity|]. split; [reflexivity|].
+    exists ex_g. split.
+    + right. split; [reflexivity|]. intros a b [<-|[<-|[]]] [<-|[<-|[]]] H; cbn; try reflexivity; exfalso; revert H; cbv; congruence.
+    + split; [now left|]. split; [now left|exact I].
+Qed.
+
+(* NOT A THEOREM in general: reordering field declarations preserves the bytes (wire level:
+   C12_reorder_fields) but not always ACCEPTANCE — a field named like a type of an enclosing scope
+   hides that type for the fields declared after it (replayed on the real parser) *)
+Example C12_reorder_fields_acceptance_caveat :
+  (exists e, check [("r"%string, [IProto 1 "r"; IEnum 2 "Color" (SUint 3) [IEnumField 2 "R" 0];
+      IMsg 3 "M" false [IField 4 (XSingle (SRef ["Color"])) "c" 2; IField 5 (XSingle (SUint 3)) "Color" 1]]%string)] "r" false = Ok e) /\
+  check [("r"%string, [IProto 1 "r"; IEnum 2 "Color" (SUint 3) [IEnumField 2 "R" 0];
+      IMsg 3 "M" false [IField 4 (XSingle (SUint 3)) "Color" 1; IField 5 (XSingle (SRef ["Color"])) "c" 2]]%string)] "r" false
+  = Err KRefNotType "r" 5.
+Proof. split; [eexists|]; vm_compute; reflexivity. Qed.
+
+(* PARTIAL (front-end side): for reorder_fields (see the caveat above), reorder_defs, alias
+   intro/inline, nest/un-nest and move to import the statement
    "check fs = Ok e -> check (rw fs) = Ok e' /\ the elaborated types are related by rw_star"
-   is NOT proved here; what is proved is the wire-level half above (any such relation between the
-   elaborated types preserves the bytes), and the front-end half is checked per generated pair
-   by T2 (tools/props/c12.py: Front.check on both trees, Spec.wire of both, real compiler bytes). *)
+   is NOT proved; the wire-level half above holds for them (any such relation between the
+   elaborated types preserves the bytes), and the front-end half is evaluated per generated pair
+   by T2 (tools/props/c12.py).  Missing for them: a member-ORDER-insensitive version of
+   FrontSim.msim (reorder_fields, reorder_defs), and a link between an alias statement and its uses / a moved
+   definition and its new path (alias, nest, import). *)
